@@ -117,6 +117,11 @@ HistAnswers(r) == [k \in DOMAIN c.hist |-> Location(r, c.hist[k].path, c.hist[k]
 StepPort(h)  == IF h.rhost = "ported" THEN "reqport" ELSE IF c.tls THEN "443" ELSE "80"
 ConnAnswers  == [k \in DOMAIN c.hist |-> [xfport |-> [mode |-> "eq", vals |-> <<StepPort(c.hist[k])>>],
                                           xfhost |-> [mode |-> "eq", vals |-> <<"reqhost">>]]]
+\* requests that are in fabio at the SAME moment through ONE route (c.together, C07): the request each upstream
+\* receives is made from that request alone - its own path after strip / prepend, the route's query in front of
+\* its OWN query - whatever the others carry
+TogetherUps(r) == [k \in DOMAIN c.hist |-> [path  |-> UpstreamPath(r, c.hist[k].path),
+                                            query |-> UpstreamQuery(r, c.hist[k].query)]]
 Sent(h)     == c.forged[h] # "absent"
 \* the scheme of the request: what the proxy in front said, else what the connection is
 ReqScheme   == IF Sent("xfproto") THEN c.xfpval ELSE IF c.tls THEN "https" ELSE "http"
@@ -284,6 +289,15 @@ EscapesSurvive    == Forwarded => EscapesOf(up.path) = EscapesOf(WireSeq(route.p
                                     EscapesOf(IF StripApplies(route, c.path) THEN Drop(c.path, Len(route.strip)) ELSE c.path)
 OnlyStripAndPrepend == (Forwarded /\ route.strip = <<>> /\ route.prepend = <<>>) => up.path = c.path
 QueryMergedInFront == Forwarded => IsPrefix(route.tquery, up.query) /\ Drop(up.query, Len(route.tquery)) = c.query
+SimultaneousIndependent == (Forwarded /\ c.hist # <<>> /\ c.together) =>
+                              /\ up.path = TogetherUps(route)[Len(c.hist)].path
+                              /\ up.query = TogetherUps(route)[Len(c.hist)].query
+                              /\ \A k \in DOMAIN c.hist :
+                                    /\ IsPrefix(route.tquery, TogetherUps(route)[k].query)
+                                    /\ Drop(TogetherUps(route)[k].query, Len(route.tquery)) = c.hist[k].query   \* its own, nobody else's
+                              /\ \A j, k \in DOMAIN c.hist :
+                                    (c.hist[j].path = c.hist[k].path /\ c.hist[j].query = c.hist[k].query)
+                                       => TogetherUps(route)[j] = TogetherUps(route)[k]
 HostOnlyOnRequest  == (Forwarded /\ route.hostopt = "") => up.host = "req"
 FaultNotHidden == (pc = "done" /\ out.kind = "upstream") => (out.cut = (c.resp \in Faulty))
 \* C08
